@@ -132,7 +132,7 @@ type Specs struct {
 var headerRe = regexp.MustCompile(`^func\s*(\(\s*(\w+)?\s*(\*?)\s*(\w+)\s*\))?\s*(\w+)\s*$`)
 
 var clauseKw = map[string]bool{"property": true, "opts": true, "requires": true, "ensures": true, "modifies": true,
-	"loop": true, "invariant": true, "step": true, "inline": true, "implements": true, "counts": true, "records": true, "at_call": true, "let": true, "uses": true, "params": true, "decreases": true}
+	"loop": true, "invariant": true, "step": true, "inline": true, "implements": true, "counts": true, "records": true, "at_call": true, "at_send": true, "let": true, "uses": true, "params": true, "decreases": true}
 var topKw = map[string]bool{"spec": true, "ghost": true, "lemma": true, "axiom": true, "func": true, "closure": true,
 	"interface": true, "extern": true, "directive": true, "fnvalue": true, "guards": true}
 
@@ -373,6 +373,26 @@ func loadContractFile(path, pkgPath string, resolveQual func(q string) string, s
 				return fail(l, "%v", err)
 			}
 			cur.Counts = append(cur.Counts, CountDef{Ghost: strings.TrimSpace(rest[:k]), Cond: e, Src: rest[k+6:]})
+		case "at_send":
+			// at_send <channel expression> assert <condition>: checked at every send on that channel in this function
+			if cur == nil {
+				return fail(l, "at_send outside a contract")
+			}
+			{
+				k := strings.Index(rest, " assert ")
+				if k < 0 {
+					return fail(l, "at_send <channel> assert <condition>")
+				}
+				cl, err := mkClause(l, rest[k+8:])
+				if err != nil {
+					return err
+				}
+				if cur.CallAsserts == nil {
+					cur.CallAsserts = map[string][]Clause{}
+				}
+				key := "send:" + strings.Join(strings.Fields(rest[:k]), "")
+				cur.CallAsserts[key] = append(cur.CallAsserts[key], cl)
+			}
 		case "at_call":
 			if cur == nil {
 				return fail(l, "at_call outside a contract")
